@@ -38,9 +38,13 @@ fn is_trivia(k: K) -> bool {
     matches!(k, K::Whitespace | K::LineComment | K::BlockComment | K::PreProcessor)
 }
 
-/// the directive/token alphabet of the property's quantifier
+/// the directive/token alphabet of the property's quantifier (plus comments: trivia between a
+/// directive and its macro name)
 fn in_alphabet(k: K) -> bool {
-    matches!(k, K::Ifdef | K::Ifndef | K::Else | K::Endif | K::Define | K::Id | K::Semi | K::Whitespace)
+    matches!(
+        k,
+        K::Ifdef | K::Ifndef | K::Else | K::Endif | K::Define | K::Id | K::Semi | K::Whitespace | K::BlockComment | K::LineComment
+    )
 }
 
 #[derive(Clone, Copy, PartialEq, Eq)]
